@@ -551,18 +551,18 @@ pub fn run(ctx: &Ctx) {
     if dev_modes() {
         std::process::exit(0);
     }
-    let n_main = ctx.scale(720, 40_000);
-    let n_shapes = ctx.scale(270, 8_000);
+    let n_main = ctx.scale(600, 40_000);
+    let n_shapes = ctx.scale(243, 8_000);
     let cycles = if ctx.is_quick() { 12 } else { 40 };
     let stats = Arc::new(Stats::default());
     ctx.run_payloads("reproducer", reproducer);
     {
         let stats = stats.clone();
-        ctx.run("main", CaseCfg::cases(n_main).choices(8000).stack_mb(16), move |d: &mut Draw| one_case(d, false, cycles, &stats));
+        ctx.run("main", CaseCfg::cases(n_main).choices(8000), move |d: &mut Draw| one_case(d, false, cycles, &stats));
     }
     {
         let stats = stats.clone();
-        ctx.run("finding-shapes", CaseCfg::cases(n_shapes).choices(8000).stack_mb(16), move |d: &mut Draw| one_case(d, true, cycles, &stats));
+        ctx.run("finding-shapes", CaseCfg::cases(n_shapes).choices(8000), move |d: &mut Draw| one_case(d, true, cycles, &stats));
     }
     {
         let g = stats.inner.lock().unwrap();
